@@ -57,12 +57,22 @@ func nodeStruct(e *Env) (*types.Named, *types.Struct) {
 func c12Coverage(e *Env, s *Sched) {
 	r := e.R
 	r.Rule("C12.teardown-coverage", "COV", "installed writers flushed and their files closed by teardown", 2)
-	td := e.Fn(schedRel, "(*Node).teardown")
+	td := e.nodeRoles().Teardown
 	_, st := nodeStruct(e)
-	if td == nil || st == nil {
+	if td == nil {
+		r.Unknown("the node's teardown function", "-", "no Node method that flushes the installed writers and is called from the scheduler was found")
+		return
+	}
+	if st == nil {
 		return
 	}
 	sp := e.P.Pkg(schedRel)
+	var tdFns []*ssa.Function
+	for _, g := range e.staticClosure(td) {
+		if rootFn(g).Package() == sp {
+			tdFns = append(tdFns, g)
+		}
+	}
 	// writers installed: Node field W := bufio.NewWriter(load Node field F)
 	type inst struct {
 		w, f string
@@ -92,8 +102,8 @@ func c12Coverage(e *Env, s *Sched) {
 				if mi, ok := arg.(*ssa.MakeInterface); ok {
 					arg = mi.X
 				}
-				if p, ok := e.C.PathOf(arg); ok {
-					file = p.Dotted()
+				if p, ok := e.C.PathOf(arg); ok && len(p.Fields) > 0 {
+					file = p.Fields[len(p.Fields)-1]
 				}
 				installs = append(installs, inst{ir.FieldNameOf(fa.X.Type(), fa.Field), file, e.InstrPos(stx)})
 			}
@@ -102,11 +112,23 @@ func c12Coverage(e *Env, s *Sched) {
 	// fields whose loaded value reaches a Flush / Close receiver in teardown
 	reach := func(callee string) map[string]bool {
 		out := map[string]bool{}
-		tr := &ir.Tracer{C: e.C}
-		for _, ci := range ir.CallsIn(td, func(c *ssa.CallCommon) bool { return ir.IsCallTo(c, callee) }) {
-			for _, l := range tr.Trace(ci.Common().Args[0]) {
-				if l.Kind == "field" {
-					out[l.Name] = true
+		// through the helpers teardown is made of: parameters are followed to the call sites
+		tr := &ir.Tracer{C: e.C, Descend: e.repoDescend, Up: func(f *ssa.Function) []ssa.CallInstruction {
+			if f == td {
+				return nil
+			}
+			return e.StaticCallSites(f)
+		}}
+		for _, g := range tdFns {
+			for _, ci := range ir.CallsIn(g, func(c *ssa.CallCommon) bool { return ir.IsCallTo(c, callee) }) {
+				for _, l := range tr.Trace(ci.Common().Args[0]) {
+					if l.Kind == "field" {
+						name := l.Name
+						if i := strings.LastIndex(name, "."); i >= 0 {
+							name = name[i+1:]
+						}
+						out[name] = true
+					}
 				}
 			}
 		}
@@ -156,9 +178,10 @@ func keys(m map[string]bool) []string {
 func c12Rearm(e *Env, s *Sched) {
 	r := e.R
 	r.Rule("C12.teardown-rearm", "ENUM typestate", "one-shot teardown flag cleared on the setup path", 1)
-	td := e.Fn(schedRel, "(*Node).teardown")
-	setup := e.Fn(schedRel, "(*Node).setup")
+	td := e.nodeRoles().Teardown
+	setup := e.nodeRoles().Setup
 	if td == nil || setup == nil {
+		r.Unknown("the node's setup / teardown functions", "-", "not found by role")
 		return
 	}
 	// early return under a boolean Node field
@@ -193,7 +216,7 @@ func c12Rearm(e *Env, s *Sched) {
 	}
 	// relaunch exists: the worker can reset the node to not-started (retry), after which setup runs again
 	relaunch := false
-	for _, ev := range s.statusEvents(s.Worker) {
+	for _, ev := range s.events(s.WorkerFns) {
 		if k, ok := s.constOf(ev); ok && k == s.val("NodeStatusNone") {
 			relaunch = true
 		}
@@ -227,7 +250,8 @@ func c12Rearm(e *Env, s *Sched) {
 func c12AlwaysTeardown(e *Env, s *Sched) {
 	r := e.R
 	r.Rule("C12.always-teardown", "MPT", "every exit after setup passes teardown", 2)
-	td := e.FnQuiet(schedRel, "(*Node).teardown")
+	td := e.nodeRoles().Teardown
+	nodeSetup := e.nodeRoles().Setup
 	reachesTD := func(f *ssa.Function) bool {
 		return f != nil && e.ReachesRepo(f, func(x *ssa.Function) bool { return x == td })
 	}
@@ -263,14 +287,36 @@ func c12AlwaysTeardown(e *Env, s *Sched) {
 				"a path leaves this function after the node's files were opened without flushing and closing them: the tail of the step's output never reaches its log / stdout file", facts...)
 		}
 	}
-	check(s.Worker, "worker", func(c *ssa.CallCommon) bool {
+	isSetupCall := func(c *ssa.CallCommon) bool {
 		sc := c.StaticCallee()
-		return sc != nil && e.ReachesRepo(sc, func(x *ssa.Function) bool { return ir.FuncName(x) == "(*"+schedRel+".Node).setup" }) && !reachesTD(sc)
-	})
-	if hr := e.Fn(schedRel, "(*Scheduler).runHandlerNode"); hr != nil {
-		check(hr, "handler runner", func(c *ssa.CallCommon) bool {
-			return ir.CalleeName(c) == "(*"+schedRel+".Node).setup"
-		})
+		return sc != nil && nodeSetup != nil && !reachesTD(sc) && e.ReachesRepo(sc, func(x *ssa.Function) bool { return x == nodeSetup })
+	}
+	// the worker: the function of the worker set that holds the setup call (the worker
+	// itself or the helper its body was moved into)
+	// the level at which setup and teardown are orchestrated: it calls something that
+	// sets the node up (and does not tear it down) and itself reaches teardown
+	orchestrates := func(f *ssa.Function) bool { return len(ir.CallsIn(f, isSetupCall)) > 0 && reachesTD(f) }
+	wfn := s.Worker
+	for _, f := range sortedFns(s.WorkerFns) {
+		if orchestrates(f) {
+			wfn = f
+		}
+	}
+	check(wfn, "worker", isSetupCall)
+	// the handler runner, by role: the function of the loop set that sets a handler node up
+	var hr *ssa.Function
+	for _, f := range sortedFns(s.LoopFns) {
+		if orchestrates(f) {
+			hr = f
+		}
+	}
+	if hr == nil {
+		hr = e.FnQuiet(schedRel, "(*Scheduler).runHandlerNode")
+	}
+	if hr != nil {
+		check(hr, "handler runner", isSetupCall)
+	} else {
+		r.Unknown("handler runner: setup call", "-", "no function of the scheduling loop sets a handler node up")
 	}
 }
 
@@ -332,8 +378,9 @@ func includesField(e *Env, v ssa.Value, field string, depth int) bool {
 func c12Wiring(e *Env, s *Sched) {
 	r := e.R
 	r.Rule("C12.wiring", "VF", "setupExec wires the log / stdout / stderr writers", 3)
-	fn := e.Fn(schedRel, "(*Node).setupExec")
+	fn := e.nodeRoles().Wire
 	if fn == nil {
+		r.Unknown("the function wiring the executor's output", "-", "no Node method invokes SetStdout")
 		return
 	}
 	invoke := func(m string) []ssa.CallInstruction {
@@ -358,9 +405,28 @@ func c12Wiring(e *Env, s *Sched) {
 	}
 	r.Check(hasStdoutFile, "setupExec: SetStdout writer includes the stdout: file writer when configured", e.InstrPos(last),
 		"the configured stdout: file never receives the step's stdout")
-	// stderr: the call that is reached last on each path
+	// stderr: the call that is reached last on each path; its argument may be chosen
+	// before the call (a variable assigned under `stderrWriter != nil`): every way the
+	// argument gets its value is looked at with that way's conditions
 	errs := invoke("SetStderr")
-	okCfg, okDefault := false, false
+	isErrW := func(v ssa.Value) bool { return e.IsFieldRead(v, nil, "stderrWriter") }
+	type valAlt struct {
+		lits []ir.NLit
+		v    ssa.Value
+	}
+	var altsOf func(v ssa.Value, lits []ir.NLit, d int) []valAlt
+	altsOf = func(v ssa.Value, lits []ir.NLit, d int) []valAlt {
+		if ph, ok := v.(*ssa.Phi); ok && d < 4 {
+			var out []valAlt
+			for k, ed := range ph.Edges {
+				out = append(out, altsOf(ed, append(append([]ir.NLit{}, lits...), e.DCSPhiEdge(ph.Block(), k)...), d+1)...)
+			}
+			return out
+		}
+		return []valAlt{{lits, v}}
+	}
+	nCfg, nDef := 0, 0
+	okCfg, okDefault := true, true
 	for _, ci := range errs {
 		// ignore a call that is always followed by another SetStderr
 		followed, _ := ir.Bypass(ci, nil, ir.PathQuery{
@@ -372,17 +438,25 @@ func c12Wiring(e *Env, s *Sched) {
 		if followed == nil {
 			continue
 		}
-		a := ci.Common().Args[0]
-		lits := e.DCS(ci)
-		isErrW := func(v ssa.Value) bool { return e.IsFieldRead(v, nil, "stderrWriter") }
-		if HasNilCmp(lits, isErrW, true) {
-			okCfg = includesField(e, a, "stderrWriter", 0)
-		} else {
-			okDefault = includesField(e, a, "logWriter", 0)
+		for _, a := range altsOf(ci.Common().Args[0], e.DCS(ci), 0) {
+			if ir.IsNilConst(a.v) {
+				continue
+			}
+			if HasNilCmp(a.lits, isErrW, true) {
+				nCfg++
+				if !includesField(e, a.v, "stderrWriter", 0) {
+					okCfg = false
+				}
+			} else {
+				nDef++
+				if !includesField(e, a.v, "logWriter", 0) {
+					okDefault = false
+				}
+			}
 		}
 	}
-	r.Check(okCfg, "setupExec: SetStderr gets the stderr: writer when configured", e.Pos(fn.Pos()), "the configured stderr: file never receives the step's stderr")
-	r.Check(okDefault, "setupExec: without stderr: the stderr writer includes the log writer", e.Pos(fn.Pos()), "without a stderr: file the step's stderr does not reach its log")
+	r.Check(okCfg && nCfg > 0, "setupExec: SetStderr gets the stderr: writer when configured", e.Pos(fn.Pos()), "the configured stderr: file never receives the step's stderr")
+	r.Check(okDefault && nDef > 0, "setupExec: without stderr: the stderr writer includes the log writer", e.Pos(fn.Pos()), "without a stderr: file the step's stderr does not reach its log")
 }
 
 func c12ExecutorSiblings(e *Env, s *Sched) {
@@ -448,7 +522,7 @@ func c12HandbackLast(e *Env, s *Sched) {
 	r.Rule("C12.handback-last", "MPT/ownership", "nothing touches the node after it was handed back", 1)
 	w := s.Worker
 	none := s.val("NodeStatusNone")
-	td := e.FnQuiet(schedRel, "(*Node).teardown")
+	td := e.nodeRoles().Teardown
 	for _, ev := range s.statusEvents(w) {
 		k, ok := s.constOf(ev)
 		if !ok || k != none || !sameNode(ev.Root, s.WorkerNode) {
